@@ -87,7 +87,13 @@ func init() {
 		"runtime.KeepAlive":     func(fr *frame, a []value) value { return nil },
 		"runtime.Gosched":       func(fr *frame, a []value) value { return nil },
 		"runtime.NumGoroutine":  func(fr *frame, a []value) value { return 1 },
-		"time.Sleep":            func(fr *frame, a []value) value { return nil },
+		"time.Sleep": func(fr *frame, a []value) value {
+			// sleeping advances the model clock (M-TIME counts seconds)
+			if d, ok := a[0].(int64); ok && d > 0 {
+				fr.i.nowTick += (d + 999_999_999) / 1_000_000_000
+			}
+			return nil
+		},
 		"time.Now":              extTimeNow,
 		"time.now":              func(fr *frame, a []value) value { return tuple{int64(1700000000), int32(0), int64(0)} },
 		"time.runtimeNano":      func(fr *frame, a []value) value { return int64(0) },
